@@ -151,6 +151,11 @@ class C17(Prop):
                 yield mk(c['op'], 'mainnet', h, b, tag=c.get('tag', ''))
 
     def signature(self, c, io, mo):
+        if c['op'] == 'c17.powChain' and c['args'][0] == 'signet' and io == 'err:validation' and mo == 'ok' \
+                and not (int(c['args'][2]) & 0x00800000):
+            t = self.S.uint256_from_compact(int(c['args'][2]))
+            if ((1 << 256) - 1 >> 32) < t <= 0x377ae << 216:
+                return 'D22-signet-mainnet-pow-limit'
         if c['op'] == 'c17.powChain' and (int(c['args'][2]) & 0x00800000) and io == 'ok':
             return 'D13-signbit-target-accepted'
         return None
